@@ -7,10 +7,11 @@ CONSTANTS
   Variants = {"none", "same", "ext", "extm0", "emptyblk", "trunc", "short", "swap", "rename", "recv", "ptype", "pcount", "ret", "cc", "argname", "vis", "doc"}
   WithB1 = {FALSE, TRUE}
   B1Vft = {FALSE, TRUE}
-  Clash = {"no", "derived"}
+  Clash = {"no", "derived", "renamed"}
   DDs = {"none", "plain", "diamond"}
   DDVft = {"no", "yes", "flat"}
   B1Names = {"b1", "_b1"}
+  SameName = FALSE
   Ptrs = {4, 8}
   Lead = {FALSE, TRUE}
   EmptyBlocks = {FALSE, TRUE}
